@@ -105,10 +105,27 @@ Definition expected_records (k : kind) (d : dispatch) (globals : list attach)
   | DLookupHandle => 0
   end.
 
+(* the level the property fixes for a status, if it does *)
+Definition determined_level (status : Z) : option slog_level :=
+  if (200 <=? status) && (status <=? 299) then Some LevelInfo
+  else if (300 <=? status) && (status <=? 399) then Some LevelDebug
+  else if (400 <=? status) && (status <=? 499) then Some LevelWarn
+  else if (500 <=? status) && (status <=? 599) then Some LevelError
+  else None.
+
+(* one record per Logger instance whenever the log handler accepts the record's level, none
+   otherwise ([min]: the handler's minimum level; None = enabled at no level) *)
+Definition count_ok (min : option slog_level) (status : Z) (n len : nat) : bool :=
+  match determined_level status with
+  | Some l => Nat.eqb len (if enabled_at min l then n else 0%nat)
+  | None => Nat.eqb len n || Nat.eqb len 0
+  end.
+
 (* [thrown]: Some id when the wrapped handler panicked with value number id; [n]: number of
    Logger instances the request passes through: one record each, all after the handler *)
 Definition spec_ok (k : kind) (glob : option resolution) (rt : route_res)
-           (method host path remote : bytes) (thrown : option N) (n : nat) (o : observation) : bool :=
+           (method host path remote : bytes) (min : option slog_level) (thrown : option N) (n : nat)
+           (o : observation) : bool :=
   o_same_response o
   && match thrown with
      | Some id =>
@@ -117,7 +134,8 @@ Definition spec_ok (k : kind) (glob : option resolution) (rt : route_res)
          && match o_records o with [] => true | _ => false end
      | None =>
          match o_panic o with
-         | None => Nat.eqb (List.length (o_records o)) n && o_after_handler o
+         | None => count_ok min (o_status o) n (List.length (o_records o))
+                   && match o_records o with [] => true | _ => o_after_handler o end
                    && forallb (record_ok k glob rt method host path remote o) (o_records o)
          | Some _ => false
          end
